@@ -17,6 +17,7 @@ CONSTANTS
   RunOnArbiterThread = TRUE
   StopBeforeCode = TRUE
   DeregOwnId = FALSE
+  RegBeforeReady = TRUE
   ExecuteOnce = TRUE
   SendFailsWhenGone = TRUE
   JoinWaitsExit = TRUE
